@@ -123,7 +123,7 @@ type resumeObs struct {
 
 // scriptedResume sends a hand-built resumption request, optionally keys its stream, sends one
 // application message and reads the server's answer.
-func scriptedResume(own *security.SessionCache, sid string, want bool, keyMode string, key []byte, fromAddr string, requireAuth bool) resumeObs {
+func scriptedResume(own *security.SessionCache, sid string, want bool, keyMode string, key []byte, fromAddr string, requireAuth bool, extra []reqAttr) resumeObs {
 	var ob resumeObs
 	ca, cb := bufpipe.Pair(fromAddr, "10.0.0.2:9618")
 	ctx, cancel := context.WithTimeout(context.Background(), 20*time.Second)
@@ -162,7 +162,11 @@ func scriptedResume(own *security.SessionCache, sid string, want bool, keyMode s
 	_ = ad.Set("Sid", sid)
 	_ = ad.Set("ResumeResponse", want)
 	_ = ad.Set("RemoteVersion", security.DefaultRemoteVersion)
-	_ = ad.Set("CryptoMethods", "AES")
+	// everything else the requester chooses to say: the requester is not trusted, so nothing of
+	// it may decide how (or whether) the connection is protected, or under which identity
+	for _, x := range extra {
+		_ = ad.Set(x.name, x.val)
+	}
 	out := message.NewMessageForStream(cst)
 	_ = out.PutInt(ctx, commands.DC_AUTHENTICATE)
 	_ = out.PutClassAd(ctx, ad)
@@ -211,6 +215,66 @@ func scriptedResume(own *security.SessionCache, sid string, want bool, keyMode s
 	ob.leak = bytes.Contains(cb.Written(), []byte("TOP-SECRET-ANSWER"))
 	ob.c2s = append([]byte{}, ca.Written()...)
 	return ob
+}
+
+// reqAttr is one attribute a resumption request carries beside Command / UseSession / Sid /
+// ResumeResponse / RemoteVersion.
+type reqAttr struct {
+	name string
+	val  any
+}
+
+// legacyReqAttrs is what the scripted requester always sent before this dimension existed (and what
+// cedar's own client sends for a session negotiated with AES).
+var legacyReqAttrs = []reqAttr{{"CryptoMethods", "AES"}}
+
+// randReqAttrs draws the attributes of a resumption request: the requester is free to put anything
+// in its ad. Each group is drawn independently, so requests carry none, one or several of: a cipher
+// preference (CryptoMethods ','-delimited / CryptoMethodsList '.'-delimited: AES-GCM spellings,
+// non-AES names, mixed lists in either order, empty, unknown, wrongly typed), security levels
+// (Encryption / Integrity / Authentication, as strings or booleans), authentication methods, identity
+// and authorisation claims (User, Authenticated, ValidCommands ...), key-exchange and lifetime
+// attributes, and handshake-state markers. The label names the draw (one token, for the history).
+func randReqAttrs(c *Ctx) ([]reqAttr, string) {
+	if c.Rng.Intn(3) == 0 {
+		return legacyReqAttrs, "legacy"
+	}
+	ciphers := []any{"AES", "AESGCM", "aes", "3DES", "BLOWFISH", "NONE", "", "BOGUS", "3DES,AES", "AES,3DES", "BLOWFISH,3DES", " 3DES , AES", ",AES", "AES,", 7, false}
+	cipherLists := []any{"AES", "AESGCM", "3DES", "BLOWFISH.3DES", "3DES.AES", "AES.3DES", "AESGCM.BLOWFISH", "BLOWFISH.3DES.AES", "", ".", ".AES", "3DES,AES", 0, true}
+	levels := []any{"NO", "NEVER", "OPTIONAL", "PREFERRED", "REQUIRED", "YES", "", "no", false, true, 0}
+	groups := []struct {
+		names []string
+		vals  []any
+		odds  int // drawn with probability 1/odds
+	}{
+		{[]string{"CryptoMethods"}, ciphers, 2},
+		{[]string{"CryptoMethodsList"}, cipherLists, 2},
+		{[]string{"Encryption", "OutgoingEncryption"}, levels, 3},
+		{[]string{"Integrity", "OutgoingIntegrity"}, levels, 3},
+		{[]string{"Authentication", "OutgoingAuthentication"}, levels, 4},
+		{[]string{"AuthMethods", "AuthMethodsList"}, []any{"CLAIMTOBE", "ANONYMOUS", "NONE", "FS,CLAIMTOBE", "TOKEN", "", 3}, 4},
+		{[]string{"User", "MyRemoteUserName", "AuthenticatedName", "TriedAuthentication"}, []any{"root@evil.example", "condor@pool.example", "unauthenticated@unmapped", "", true}, 4},
+		{[]string{"Authenticated", "AuthenticationSucceeded"}, []any{true, false, "YES", "NO"}, 5},
+		{[]string{"ValidCommands", "LimitAuthorization"}, []any{"1,2,3,60007", "", "ADMINISTRATOR", 60007}, 6},
+		{[]string{"ECDHPublicKey", "ResumeNonce", "Nonce"}, []any{"AAAA", "", "not-base64!", 1}, 6},
+		{[]string{"SessionDuration", "SessionLease", "SessionExpires"}, []any{"0", "1", "99999999", 0, 99999999, -1}, 6},
+		{[]string{"Enact", "NewSession", "NegotiatedSession", "SessionResumed"}, []any{"YES", "NO", true, false}, 6},
+		{[]string{"TrustDomain", "Subsystem", "ServerPid", "ParentUniqueID", "ConnectSinful"}, []any{"evil.example", "SCHEDD", 1, "<10.9.9.9:4242>"}, 8},
+	}
+	var out []reqAttr
+	var lab []string
+	for _, g := range groups {
+		if c.Rng.Intn(g.odds) != 0 {
+			continue
+		}
+		a := reqAttr{pick(c, g.names), pick(c, g.vals)}
+		out = append(out, a)
+		lab = append(lab, fmt.Sprintf("%s:%v", a.name, a.val))
+	}
+	if len(out) == 0 {
+		return nil, "bare"
+	}
+	return out, tokEsc(strings.Join(lab, "+"))
 }
 
 // remainClass: how long the server-side entry (own cache first, then the global one) has left,
@@ -443,26 +507,40 @@ func runResume(c *Ctx) error {
 				from := pick(c, []string{"10.0.0.1:1111", "10.9.9.9:4242"})
 				rsid := mutateSid(sid, how)
 				requireAuth := c.Rng.Intn(3) != 0 // the resuming server's policy: REQUIRED or OPTIONAL
-				ob := scriptedResume(own, rsid, want, keyMode, key, from, requireAuth)
+				// what else the request says: a third of the requests are the legacy one (CryptoMethods=AES
+				// only), the rest carry extra / conflicting attributes
+				extra, xlab := randReqAttrs(c)
+				ob := scriptedResume(own, rsid, want, keyMode, key, from, requireAuth, extra)
 				var r string
 				if ob.ok {
 					r = fmt.Sprintf("ok reply=%s user=%s auth=%s enc=%s", ob.reply, tokEsc(ob.user), b01(ob.auth), b01(ob.enc))
 				} else {
 					r = fmt.Sprintf("ok reply=%s refused", ob.reply)
 				}
-				op := fmt.Sprintf("sresume %s want=%s req=%s", rsid, b01(want), b01(requireAuth))
+				// the attributes ride on the op as one more token: the model's answer does not depend on it
+				// (nothing the requester says beside the id decides the outcome), the implementation's must not
+				op := fmt.Sprintf("sresume %s want=%s req=%s attrs=%s", rsid, b01(want), b01(requireAuth), xlab)
 				log(op, r)
 				if ob.ok && requireAuth && !authed {
 					c.Violate(Violation{Property: "C03", Key: "C03:resumed-unauthenticated-under-required", What: "a server whose policy marks authentication REQUIRED returned success for a resumed session that was established without authentication",
 						Ops: append([]string{}, ops...), Expected: "refused (SID_NOT_FOUND), the client comes back with a full handshake", Observed: r})
 				}
-				if how != "right" || keyMode != "right" {
+				if how != "right" || keyMode != "right" || xlab != "legacy" {
 					nontrivial = true
 				}
 				c.Count("req:" + how + "/" + keyMode)
+				switch xlab {
+				case "legacy", "bare":
+					c.Count("req-attrs:" + xlab)
+				default:
+					c.Count("req-attrs:extra")
+					for _, x := range extra {
+						c.Count("req-attr:" + x.name)
+					}
+				}
 				// ---- property oracle C06 ----
 				viol := func(k, what, exp, obs string) {
-					c.Violate(Violation{Property: "C06", Key: "C06:" + k, What: what, Ops: append(append([]string{}, ops...), fmt.Sprintf("# request key-mode=%s from=%s", keyMode, from)), Expected: exp, Observed: obs})
+					c.Violate(Violation{Property: "C06", Key: "C06:" + k, What: what, Ops: append(append([]string{}, ops...), fmt.Sprintf("# request key-mode=%s from=%s attrs=%s", keyMode, from, xlab)), Expected: exp, Observed: obs})
 				}
 				// the entry a request for the right id is answered from: the own cache's live copy when
 				// there is one (no fallback then), else the global entry
